@@ -86,7 +86,7 @@ bool Parser::parseExternalDeclaration(DeclarationSyntax*& decl)
 
     switch (peek().kind()) {
         case SyntaxKind::SemicolonToken:
-            consume();
+            parseIncompleteDeclaration_AtFirst(decl, nullptr);
             break;
 
         case SyntaxKind::Keyword__Static_assert:
